@@ -729,6 +729,68 @@ theorem model_holds_head [Zero α] [DecidableEq α] (t : Table α) (hwf : t.WF) 
     have b := blockSpec_trans t _ _ _ _ _ b1 b2 (fun s hs => List.mem_of_mem_take hs)
     exact blockVerdict_none t _ _ _ b _ _ _ _ _ _ _ _ (eqb_self _)
 
+/-! ## The table's own by-ID lookups -/
+
+theorem map_indexOf?_self (ids : List Id) (hn : ids.Nodup) :
+    ids.map (indexOf? ids) = (List.range ids.length).map some := by
+  apply List.ext_getElem
+  · simp
+  · intro i h1 h2
+    have hi : i < ids.length := by simpa using h1
+    simp only [List.getElem_map, List.getElem_range, indexOf?_getElem ids hn i hi]
+
+theorem map_vec?_self (t : Table α) (hwf : t.WF) (ax : Axis) (hn : (t.ids ax).Nodup)
+    (hl : (vecs t ax).length = (t.ids ax).length) :
+    (t.ids ax).map (t.vec? ax) = (vecs t ax).map some := by
+  apply List.ext_getElem
+  · simp [hl]
+  · intro i h1 h2
+    have hi : i < (t.ids ax).length := by simpa using h1
+    simp only [List.getElem_map, vec?_getElem t hwf ax hn i hi (by omega)]
+
+/-- **model_lookups_hold**: in the model a coherent table with distinct IDs answers `index(id)` with the
+ID's position, `data(id)` with the vector at that position, and knows none of the removed IDs -/
+theorem model_lookups_hold [DecidableEq α] (r : Table α) (hwf : r.WF) (hno : r.obs.Nodup) (hns : r.samp.Nodup)
+    (removedObs removedSamp : List Id) (h1 : ∀ id ∈ removedObs, id ∉ r.obs) (h2 : ∀ id ∈ removedSamp, id ∉ r.samp) :
+    holdsLookups r (lookupsOf r removedObs removedSamp) = true := by
+  have e1 := map_indexOf?_self r.obs hno
+  have e2 := map_indexOf?_self r.samp hns
+  have e3 := map_vec?_self r hwf .obs hno hwf.1
+  have e4 := map_vec?_self r hwf .samp hns (by simp [vecs, transposeGrid, Table.ids])
+  have e5 : removedObs.filter (fun id => r.obs.contains id) = [] := by
+    rw [List.filter_eq_nil_iff]; intro id hid; simpa using h1 id hid
+  have e6 : removedSamp.filter (fun id => r.samp.contains id) = [] := by
+    rw [List.filter_eq_nil_iff]; intro id hid; simpa using h2 id hid
+  simp only [Table.ids, vecs] at e3 e4
+  simp only [holdsLookups, lookupsOf, e1, e2, e3, e4, e5, e6, eqb_self, vecs, List.append_nil, Bool.and_self]
+
+/-- the result of a filter has distinct IDs and none of the IDs it dropped, so `model_lookups_hold` applies
+to it with `removed` = the dropped IDs -/
+theorem filter_result_lookups [DecidableEq α] (t : Table α) (hwf : t.WF) (hno : t.obs.Nodup) (hns : t.samp.Nodup)
+    (ax : Axis) (f : Id → Bool) :
+    let r := filterAxis t ((t.ids ax).map f) ax
+    let dropped := (t.ids ax).filter (fun id => !f id)
+    holdsLookups r (match ax with
+      | .obs => lookupsOf r dropped []
+      | .samp => lookupsOf r [] dropped) = true := by
+  intro r dropped
+  have hs : FilterSpec t r ax f := filterAxis_meets_spec t hwf ax (by cases ax <;> assumption) f
+  have hdrop : ∀ id ∈ dropped, id ∉ r.ids ax := by
+    intro id hid hmem
+    rw [hs.ids] at hmem
+    have h1 := (List.mem_filter.mp hid).2
+    have h2 := (List.mem_filter.mp hmem).2
+    simp [h2] at h1
+  cases ax with
+  | obs =>
+    have hro : r.obs.Nodup := by
+      have := hs.ids; simp only [Table.ids] at this; rw [this]; exact hno.filter _
+    exact model_lookups_hold r hs.wf hro hns dropped [] hdrop (fun _ h => by cases h)
+  | samp =>
+    have hrs : r.samp.Nodup := by
+      have := hs.ids; simp only [Table.ids] at this; rw [this]; exact hns.filter _
+    exact model_lookups_hold r hs.wf hno hrs [] dropped (fun _ h => by cases h) hdrop
+
 /-! ## Non-vacuity: a concrete receiver whose layout is UNSORTED and holds a stored zero -/
 
 namespace Example
